@@ -317,7 +317,7 @@ func ruleC06R3(c *Ctx) {
 	}
 	c.check(labOK, "C06.R3", np, "metric label values derive from this pipeline's key values", start.Pos(), "append(…, keys...)", "the key_* label values are not the key values of this pipeline")
 	// the starter: one tag / one id for all outputs
-	ps := c.P.Fn("orchestrate/obase.PrepareSequentialPipeline$1")
+	ps := returnedClosure(c.P.Fn("orchestrate/obase.PrepareSequentialPipeline"))
 	var tagP, idP ssa.Value
 	for _, p := range ps.Params {
 		switch p.Name() {
@@ -485,6 +485,62 @@ func ruleC06R5(c *Ctx) {
 			}
 		}
 		c.check(fromFile, "C06.R5", ls, "recovered id is the content of .id", in.Pos(), "the bytes read from the id file", "the recovered id is not what was stored (e.g. the directory name, which is sanitised and hashed)")
+		// … and exactly that: between the read and the list only conversions (bytes to string, copies) — no trimming,
+		// case folding or splitting, which map different stored ids to one recovered id
+		exact, culprit := true, ""
+		seen := map[ssa.Value]bool{}
+		var walk func(v ssa.Value, d int)
+		walk = func(v ssa.Value, d int) {
+			v = strip(v)
+			if v == nil || seen[v] || d > 20 {
+				return
+			}
+			seen[v] = true
+			switch x := v.(type) {
+			case *ssa.Convert:
+				walk(x.X, d+1)
+			case *ssa.ChangeType:
+				walk(x.X, d+1)
+			case *ssa.Phi:
+				for _, e := range x.Edges {
+					walk(e, d+1)
+				}
+			case *ssa.Extract:
+				walk(x.Tuple, d+1)
+			case *ssa.Alloc:
+				for _, ref := range *x.Referrers() {
+					if st, ok := ref.(*ssa.Store); ok && st.Addr == ssa.Value(x) {
+						walk(st.Val, d+1)
+					}
+				}
+			case *ssa.UnOp:
+				walk(x.X, d+1)
+			case *ssa.Call:
+				f := x.Common().StaticCallee()
+				n := ""
+				if f != nil {
+					n = extName(f)
+					if strings.HasPrefix(fnPkgPath(f), modPath) {
+						n = anchorName(f)
+					}
+				}
+				switch n {
+				case "os.ReadFile", "github.com/pkg/xattr.Get":
+					// the source
+				case "util.StringFromBytes", "util.DeepCopyStringFromBytes", "util.DeepCopyString", "strings.Clone", "bytes.Clone":
+					walk(x.Common().Args[0], d+1)
+				default:
+					exact, culprit = false, n
+				}
+			case *ssa.Slice:
+				exact, culprit = false, "a re-slice"
+			}
+		}
+		for _, e := range varargElems(cl.Call.Args[1]) {
+			walk(e, 0)
+		}
+		c.check(exact, "C06.R5", ls, "recovered id is exactly the content of .id", in.Pos(), "only conversions and copies between the read and the recovery list",
+			"the recovered id passes through "+culprit+" on its way from the .id file: ids that differ only in what that removes or folds (leading / trailing whitespace, case …) are recovered as one id, whose directory name — hashed from the original id — is a different one, so the chunks are not reattached to the key set that produced them")
 	})
 	c.floor("C06.R5", "ids appended to the recovery list", nApp, 1)
 }
